@@ -442,6 +442,7 @@ func replayMain(args []string) int {
 			if strings.HasPrefix(part.Name, rf.Spec.Scenario) {
 				opts.DeepReads = part.Opts.DeepReads
 				opts.DeepRefsFor = part.Opts.DeepRefsFor
+				opts.Porcupine = part.Opts.Porcupine
 			}
 		}
 	}
